@@ -168,15 +168,53 @@ func setPairLinks(s *sim.SessSim, p *sim.Pair, fs *sim.FateScript) {
 
 func keyLenFor(c string) int { return wire.KeyLen(c) }
 
+// pairAllowance: see coreAllowance; the same reasoning for two sessions.
+func pairAllowance(p *sim.Pair, extra int64) int64 {
+	var maxRto int64 = 200
+	for e := 0; e < 2; e++ {
+		if p.Sess[e] == nil {
+			continue
+		}
+		p.Sess[e].VerifWithKCP(func(k *kcp.KCP) {
+			st := k.VerifState(true)
+			maxRto = max(maxRto, int64(st.RxRto))
+			for _, r := range st.SndBufRto {
+				maxRto = max(maxRto, int64(r))
+			}
+		})
+	}
+	return 2*(maxRto+60_000) + 2*180_000 + extra + 10_000
+}
+
+type pairProgress struct {
+	acc, rcv [2]int64
+	una, nxt [2]uint32
+	wait     [2]int
+}
+
+func pairSignature(p *sim.Pair) (g pairProgress) {
+	for e := 0; e < 2; e++ {
+		g.acc[e], g.rcv[e], _ = p.Progress(e)
+		if p.Sess[e] != nil {
+			p.Sess[e].VerifWithKCP(func(k *kcp.KCP) {
+				st := k.VerifState(false)
+				g.una[e], g.nxt[e], g.wait[e] = st.SndUna, st.RcvNxt, st.SndQueue+st.SndBuf
+			})
+		}
+	}
+	return
+}
+
 // runPairUntilComplete is bounded liveness for a session pair: run until the
-// fault scripts are used up (however long retransmission back-off stretches a
-// script counted in datagrams, up to 6 h), then demand completion within the
-// bound. errScriptUnfinished means the premise (faults over) was never met.
+// faults are over (fault scripts used up - however long back-off stretches a
+// script counted in datagrams, up to 6 h - and faultsEnd reached), then demand
+// progress: wedged = nothing moved for longer than pairAllowance.
+// errScriptUnfinished means the premise (faults over) was never met.
 func runPairUntilComplete(p *sim.Pair, s *sim.SessSim, faultsEnd int64, segs int64, ivSum int) error {
-	bound := func(from int64) int64 { return from + 2*faultsEnd + 360_000 + (segs+10)*3*int64(ivSum+100) }
+	_ = segs
 	err := p.Run(max(faultsEnd, 1_000), false)
 	for err == nil && !p.Complete() && !s.ScriptsDone() && s.Now() < 6*3600_000 {
-		err = p.Run(s.Now()+600_000, false)
+		err = p.Run(s.Now()+300_000, false)
 	}
 	if err != nil || p.Complete() {
 		return err
@@ -184,12 +222,22 @@ func runPairUntilComplete(p *sim.Pair, s *sim.SessSim, faultsEnd int64, segs int
 	if !s.ScriptsDone() {
 		return errScriptUnfinished
 	}
-	end := bound(max(s.Now(), faultsEnd))
-	err = p.Run(end, false)
-	if err == nil && !p.Complete() {
-		a0, r0, t0 := p.Progress(0)
-		a1, r1, t1 := p.Progress(1)
-		err = fmt.Errorf("transfer did not complete: A->B %d accepted / %d read / %d total, B->A %d/%d/%d; faults over since %d ms, now %d ms", a0, r0, t0, a1, r1, t1, faultsEnd, s.Now())
+	healed := s.Now()
+	last, lastAt := pairSignature(p), s.Now()
+	for err == nil && !p.Complete() {
+		err = p.Run(s.Now()+20_000, false)
+		if sig := pairSignature(p); sig != last {
+			last, lastAt = sig, s.Now()
+			continue
+		}
+		if allow := pairAllowance(p, 4*int64(ivSum)); s.Now()-lastAt > allow {
+			a0, r0, t0 := p.Progress(0)
+			a1, r1, t1 := p.Progress(1)
+			return fmt.Errorf("transfer wedged: faults over since %d ms, nothing moved since %d ms (now %d ms, allowance %d ms): A->B %d accepted / %d read / %d total, B->A %d/%d/%d", healed, lastAt, s.Now(), allow, a0, r0, t0, a1, r1, t1)
+		}
+		if s.Now()-healed > 48*3600_000 {
+			return errScriptUnfinished
+		}
 	}
 	return err
 }
